@@ -2,6 +2,8 @@ package main
 
 import (
 	"fmt"
+	"go/types"
+	"os"
 	"sort"
 	"strings"
 
@@ -42,6 +44,10 @@ func timeValueClass(v ssa.Value, depth int) string {
 		if g := x.Call.StaticCallee(); g != nil && IsModuleFunc(g) && isTimeTime(x.Type()) && g.Signature.Params().Len() == 0 {
 			return "now"
 		}
+	case *ssa.Field:
+		if st, ok := x.X.Type().Underlying().(*types.Struct); ok && st.Field(x.Field).Name() == "Now" {
+			return "now"
+		}
 	case *ssa.Phi:
 		cls := map[string]bool{}
 		for _, e := range x.Edges {
@@ -76,6 +82,13 @@ func timeValueClass(v ssa.Value, depth int) string {
 		if _, ok := x.X.(*ssa.FreeVar); ok {
 			return "now"
 		}
+		if fa, ok := x.X.(*ssa.FieldAddr); ok {
+			if _, f, _ := fieldAddrName(fa); f == "LeaseUntil" {
+				return "lease_until"
+			} else if f == "Now" {
+				return "now" // the instant the caller supplied with the request
+			}
+		}
 	}
 	return "other"
 }
@@ -86,7 +99,33 @@ func checkTerminalTimeParity(c *Ctx, rule string) {
 	type key struct{ root, to string }
 	norm := func(root string) string { return strings.TrimSuffix(root, "Batch") }
 	sq := map[key]map[string]bool{}
+	relSq, relMem := map[string]string{}, map[string]string{} // class of stamp written when a lease is released → first site
+	relRootSq, relRootMem := map[string]map[bool]string{}, map[string]map[bool]string{} // per Store method: does the stamp of a released lease depend on its deadline
 	for _, t := range p.sqlTransitions("sqlite") {
+		if t.Kind == "store" && t.To == "queued" && t.Stmt.Verb() == "UPDATE" && (!t.HasFrom || t.From&ssParse("leased") != 0) {
+			if rhs, ok := t.Stmt.St.set["next_run_at"]; ok {
+				cls := "other"
+				if strings.EqualFold(strings.TrimSpace(rhs), "lease_until") {
+					cls = "lease_until"
+				} else if lr := strings.ToLower(rhs); strings.Contains(lr, "lease_until") && (strings.HasPrefix(strings.TrimSpace(lr), "min(") || strings.HasPrefix(strings.TrimSpace(lr), "least(")) {
+					cls = "lease_until|now"
+				} else if ex := m.operandExpr(t.Stmt, rhs); ex != nil {
+					cls, _ = p.ClockKind(ex, t.Stmt.Decl)
+					if strings.HasPrefix(cls, "other") {
+						cls = "other"
+					}
+				}
+				if relSq[cls] == "" {
+					relSq[cls] = m.Key(t.Stmt)
+				}
+				if cls != "now+d" {
+					if relRootSq[t.Root] == nil {
+						relRootSq[t.Root] = map[bool]string{}
+					}
+					relRootSq[t.Root][strings.Contains(cls, "lease_until")] = m.Key(t.Stmt)
+				}
+			}
+		}
 		if t.Kind != "store" || (t.To != "delivered" && t.To != "dead" && t.To != "canceled") {
 			continue
 		}
@@ -100,7 +139,9 @@ func checkTerminalTimeParity(c *Ctx, rule string) {
 			continue
 		}
 		cls := "other"
-		if ex := m.operandExpr(t.Stmt, rhs); ex != nil {
+		if strings.EqualFold(strings.TrimSpace(rhs), "lease_until") {
+			cls = "lease_until"
+		} else if ex := m.operandExpr(t.Stmt, rhs); ex != nil {
 			cls, _ = p.ClockKind(ex, t.Stmt.Decl)
 			if strings.HasPrefix(cls, "other") {
 				cls = "other"
@@ -115,6 +156,28 @@ func checkTerminalTimeParity(c *Ctx, rule string) {
 	for i := range sf.Events {
 		e := &sf.Events[i]
 		to := strings.Trim(e.ToStr, "{}")
+		if e.Kind == "store" && to == "queued" && e.From&ssParse("leased") != 0 {
+			st := e.Instr.(*ssa.Store)
+			ptr := st.Addr.(*ssa.FieldAddr).X
+			for _, ins := range st.Block().Instrs {
+				if s2, ok := ins.(*ssa.Store); ok {
+					if fa, ok := s2.Addr.(*ssa.FieldAddr); ok && fa.X == ptr {
+						if _, f, _ := fieldAddrName(fa); f == "NextRunAt" {
+							cls := timeValueClass(s2.Val, 0)
+							if relMem[cls] == "" {
+								relMem[cls] = p.InstrPos(s2) // a merged value (lease_until|now) is one class: the stamp is chosen per message
+							}
+							if cls != "now+d" {
+								if relRootMem[e.Root] == nil {
+									relRootMem[e.Root] = map[bool]string{}
+								}
+								relRootMem[e.Root][strings.Contains(cls, "lease_until")] = p.InstrPos(s2)
+							}
+						}
+					}
+				}
+			}
+		}
 		if e.Kind != "store" || (to != "delivered" && to != "dead" && to != "canceled") {
 			continue
 		}
@@ -152,6 +215,18 @@ func checkTerminalTimeParity(c *Ctx, rule string) {
 		sort.Strings(ks)
 		return strings.Join(ks, ",")
 	}
+	if os.Getenv("HK_DBG_R10") != "" {
+		fmt.Fprintf(os.Stderr, "R10 release mem=%v sqlite=%v\n", relMem, relSq)
+		fmt.Fprintf(os.Stderr, "R10 release-roots mem=%v\nR10 release-roots sqlite=%v\n", relRootMem, relRootSq)
+		for k, v := range mem {
+			fmt.Fprintf(os.Stderr, "R10 mem %s→%s %s | sqlite %s\n", k.root, k.to, set(v), set(sq[k]))
+		}
+		for k, v := range sq {
+			if _, ok := mem[k]; !ok {
+				fmt.Fprintf(os.Stderr, "R10 sqlite-only %s→%s %s\n", k.root, k.to, set(v))
+			}
+		}
+	}
 	for _, k := range keys {
 		a, b := set(mem[k]), set(sq[k])
 		c.Check(a == b, rule, fmt.Sprintf("Store.%s:→%s:next_run_at(memory=sqlite)", k.root, k.to), memPos[k],
@@ -159,4 +234,55 @@ func checkTerminalTimeParity(c *Ctx, rule string) {
 			fmt.Sprintf("on %s → %s the memory store writes NextRunAt = {%s} but SQLite writes next_run_at = {%s}: listings differ and retention, which is measured from this stamp, prunes at different instants", k.root, k.to, a, b))
 	}
 	c.Floor(rule, "terminal transitions compared", len(keys), 4)
+	// a lease that is released (expiry sweep, expired-lease conflict, nack) is stamped alike wherever it happens
+	ks := func(m map[string]string) string {
+		var out []string
+		for k := range m {
+			out = append(out, k)
+		}
+		sort.Strings(out)
+		return strings.Join(out, ",")
+	}
+	a, b := ks(relMem), ks(relSq)
+	var where []string
+	for cls, at := range relSq {
+		if relMem[cls] == "" {
+			where = append(where, "SQLite writes "+cls+" in "+at)
+		}
+	}
+	for cls, at := range relMem {
+		if relSq[cls] == "" {
+			where = append(where, "memory writes "+cls+" at "+at)
+		}
+	}
+	sort.Strings(where)
+	var roots []string
+	for r := range relRootMem {
+		if _, ok := relRootSq[r]; ok {
+			roots = append(roots, r)
+		}
+	}
+	sort.Strings(roots)
+	for _, r := range roots {
+		mm, ss := relRootMem[r], relRootSq[r]
+		_, md := mm[true]
+		_, mn := mm[false]
+		_, sd := ss[true]
+		_, sn := ss[false]
+		desc := func(d, n bool) string {
+			switch {
+			case d && n:
+				return "the lease deadline on some paths and now on others"
+			case d:
+				return "the lease deadline"
+			}
+			return "now"
+		}
+		c.Check(md == sd && (mn == sn || (md && sd)), rule, "Store."+r+":released lease:next_run_at(memory=sqlite)", mm[md],
+			"both backends stamp a lease released by "+r+" from "+desc(sd, sn),
+			fmt.Sprintf("a lease released inside %s is stamped from %s by the memory store (%s) but from %s by SQLite (%s): after the same calls the backends list different next_run_at values, report different ready lag and offer the message at different instants", r, desc(md, mn), mm[md], desc(sd, sn), ss[sd && !md || sd]))
+	}
+	c.Floor(rule, "operations that can release a lease, compared", len(roots), 3)
+	c.Check(a == b && a != "", rule, "Store:leased→queued:next_run_at(memory=sqlite)", "", "both backends stamp a released lease with {"+b+"}",
+		fmt.Sprintf("a lease that is released is stamped with {%s} by the memory store but with {%s} by SQLite (%s): after the same calls the two backends list different next_run_at values and offer the message at different instants", a, b, strings.Join(where, "; ")))
 }
